@@ -1,6 +1,6 @@
 From Coq Require Import ZArith NArith List Bool.
 From PSO Require Import Raft.Types Raft.Node Raft.Net Raft.Obs Raft.ProofsApplyBase Raft.ProofsApply Raft.ProofsApplyLog
-  Raft.ProofsCallbacks Raft.ProofsCallbacks2 Raft.ProofsApplyReplay.
+  Raft.ProofsCallbacks Raft.ProofsCallbacks2 Raft.ProofsApplyReplay Raft.ProofsApplyWf.
 Import ListNotations.
 Open Scope N_scope.
 
@@ -103,3 +103,68 @@ Theorem C01_state_is_replay_partial_other :
   uview_of (idle_S (api_compact n)) = uview_of (idle_S n).
 Proof. exact other_events_state. Qed.
 Print Assumptions C01_state_is_replay_partial_other.
+
+(* ---- log_wf through the handlers (each with the side condition it needs) ---- *)
+
+(* append_entries body: truncation from the first conflict + append keeps the log well-formed when
+   the entries of the message follow its prev index *)
+Theorem C01_log_wf_append_entries :
+  forall e from c prev new s,
+  log_wf (log (nd s)) ->
+  (forall p t, prev = Some (p, t) -> consec (p + 1) new) ->
+  log_wf (log (nd (ae_regular e from c prev new s))).
+Proof. exact log_wf_ae_regular. Qed.
+Print Assumptions C01_log_wf_append_entries.
+
+Theorem C01_log_wf_load_dump :
+  forall e clear s,
+  log_wf (log (nd s)) ->
+  (forall sn, stored (sr (nd s)) = Some (Good sn) -> snap_wf sn) ->
+  log_wf (log (nd (load_dump e clear s))).
+Proof. exact log_wf_load_dump. Qed.
+Print Assumptions C01_log_wf_load_dump.
+
+Theorem C01_log_wf_try_compact :
+  forall e s,
+  log_wf (log (nd s)) ->
+  (pid (sr (nd s)) = 1 -> cur_id (sr (nd s)) <= last_idx (log (nd s))) ->
+  log_wf (log (nd (try_compact e s))).
+Proof. exact log_wf_try_compact. Qed.
+Print Assumptions C01_log_wf_try_compact.
+
+(* every delivered well-formed message keeps the log well-formed (all message kinds: entries,
+   chunked entry, snapshot chunks, votes, forwarded commands, replies) *)
+Theorem C01_log_wf_message :
+  forall e from m n,
+  log_wf (log n) -> msg_wf m ->
+  (forall sn, stored (sr n) = Some (Good sn) -> snap_wf sn) ->
+  (forall ps, incoming (sr n) = Some ps -> Forall piece_wf ps) ->
+  log_wf (log (nd (on_message e from m n))).
+Proof. exact log_wf_on_message. Qed.
+Print Assumptions C01_log_wf_message.
+
+(* a tick keeps it up to the compaction phase; compaction keeps it when the cut index of a
+   finished serialization is still in the log *)
+Theorem C01_log_wf_tick_partial :
+  forall e n,
+  log_wf (log n) ->
+  (forall sn, stored (sr n) = Some (Good sn) -> snap_wf sn) ->
+  let sb := tick_body e (start_S e n) in
+  log_wf (log (nd sb)) /\
+  ((pid (sr (nd sb)) = 1 -> cur_id (sr (nd sb)) <= last_idx (log (nd sb))) ->
+   log_wf (log (nd (on_tick e n)))).
+Proof. exact log_wf_on_tick. Qed.
+Print Assumptions C01_log_wf_tick_partial.
+
+Theorem C01_log_other_events :
+  forall (api : env -> cmd -> cbref -> node -> S) e c cbk n x,
+  (api = api_submit \/ api = api_admin \/ api = api_setver) ->
+  log (nd (api e c cbk n)) = log n /\ log (on_connected x n) = log n /\ log (on_disconnected x n) = log n /\
+  log (api_compact n) = log n.
+Proof. exact log_other_events. Qed.
+Print Assumptions C01_log_other_events.
+
+Theorem C01_log_wf_init :
+  forall e me oth sv, log_wf (log (init_node e me oth sv)).
+Proof. exact log_wf_init. Qed.
+Print Assumptions C01_log_wf_init.
